@@ -286,4 +286,182 @@ theorem persists (c : Cfg) (e : Entry) (ops : List Op) : ∀ s, e ∈ s.entries 
       simp only [step] at hlt ⊢
       exact mem_expire (mem_insertEntry _ _ _ (Or.inl h)) hlt
 
+/-! ### sampling -/
+
+theorem collapse_length_le (l : List (Ident × Bool)) : ∀ (acc : List (Ident × Bool)),
+    acc.length ≤ (collapse l acc).length ∧ (collapse l acc).length ≤ acc.length + l.length := by
+  induction l with
+  | nil => intro acc; simp [collapse]
+  | cons x rest ih =>
+    intro acc
+    obtain ⟨xid, xb⟩ := x
+    simp only [collapse]
+    split
+    · have := ih (acc.map fun y => if y.1 = xid then (y.1, y.2 || xb) else y)
+      simp only [List.length_map, List.length_cons] at this ⊢
+      omega
+    · have := ih (acc ++ [(xid, xb)])
+      simp only [List.length_append, List.length_cons, List.length_nil] at this ⊢
+      omega
+
+/-- identities selected so far stay selected, and every decoded identity of the fold is selected -/
+theorem collapse_ids (l : List (Ident × Bool)) : ∀ (acc : List (Ident × Bool)) (id : Ident),
+    id ∈ (collapse l acc).map (·.1) ↔ (id ∈ acc.map (·.1) ∨ id ∈ l.map (·.1)) := by
+  induction l with
+  | nil => intro acc id; simp [collapse]
+  | cons x rest ih =>
+    intro acc id
+    obtain ⟨xid, xb⟩ := x
+    simp only [collapse]
+    split
+    · rename_i hany
+      rw [ih]
+      have hm : (acc.map fun y => if y.1 = xid then (y.1, y.2 || xb) else y).map (·.1) = acc.map (·.1) := by
+        rw [List.map_map]; apply List.map_congr_left; intro y _; simp only [Function.comp]; split <;> rfl
+      rw [hm]
+      have hx : xid ∈ acc.map (·.1) := by
+        obtain ⟨y, hy, hye⟩ := List.any_eq_true.mp hany
+        exact List.mem_map.mpr ⟨y, hy, by simpa using hye⟩
+      simp only [List.map_cons, List.mem_cons]
+      constructor
+      · rintro (h | h)
+        · exact Or.inl h
+        · exact Or.inr (Or.inr h)
+      · rintro (h | h | h)
+        · exact Or.inl h
+        · subst h; exact Or.inl hx
+        · exact Or.inr h
+    · rw [ih]
+      simp only [List.map_append, List.map_cons, List.map_nil, List.mem_append, List.mem_cons, List.not_mem_nil, or_false]
+      constructor
+      · rintro ((h | h) | h)
+        · exact Or.inl h
+        · exact Or.inr (Or.inl h)
+        · exact Or.inr (Or.inr h)
+      · rintro (h | h | h)
+        · exact Or.inl (Or.inl h)
+        · exact Or.inl (Or.inr h)
+        · exact Or.inr h
+
+theorem decodeAll_length_le (ms : List (List Char)) : (decodeAll ms).length ≤ ms.length := by
+  unfold decodeAll; exact List.length_filterMap_le _ _
+
+theorem visit_length (sel : List (Ident × Bool)) (picks : List (List Char)) :
+    sel.length ≤ (visit sel picks).length ∧ (visit sel picks).length ≤ sel.length + picks.length := by
+  unfold visit
+  have := collapse_length_le (decodeAll picks) sel
+  have := decodeAll_length_le picks
+  omega
+
+theorem sampleFrom_mono (visits : List (Nat × List (List Char))) : ∀ (sel : List (Ident × Bool)) (id : Ident),
+    id ∈ sel.map (·.1) → id ∈ (sampleFrom sel visits).map (·.1) := by
+  induction visits with
+  | nil => intro sel id h; exact h
+  | cons v rest ih =>
+    intro sel id h
+    simp only [sampleFrom, List.foldl_cons]
+    apply ih
+    unfold visit
+    exact (collapse_ids _ _ _).mpr (Or.inl h)
+
+/-- at most n identities -/
+theorem sampleFrom_le (c : Cfg) (s : State) (h : Bytes) (n : Nat) (visits : List (Nat × List (List Char))) :
+    ∀ (sel : List (Ident × Bool)) (visited : List Nat), sel.length ≤ n → ValidFrom c s h n sel visited visits →
+      (sampleFrom sel visits).length ≤ n := by
+  induction visits with
+  | nil => intro sel _ hl _; exact hl
+  | cons v rest ih =>
+    intro sel visited hl hv
+    obtain ⟨w, picks⟩ := v
+    obtain ⟨h1, _, _, _, _, h6, h7⟩ := hv
+    simp only [sampleFrom, List.foldl_cons]
+    apply ih (visit sel picks) (w :: visited) _ h7
+    have := (visit_length sel picks).2
+    have : picks.length ≤ n - sel.length := by rw [h6]; exact Nat.min_le_left _ _
+    omega
+
+/-- every selected identity decodes from a member of a queried window -/
+theorem sampleFrom_src (c : Cfg) (s : State) (h : Bytes) (n : Nat) (visits : List (Nat × List (List Char))) :
+    ∀ (sel : List (Ident × Bool)) (visited : List Nat), ValidFrom c s h n sel visited visits →
+      ∀ id, id ∈ (sampleFrom sel visits).map (·.1) →
+        id ∈ sel.map (·.1) ∨ ∃ w m b, queried c s.now w = true ∧ m ∈ members s h w ∧ deserializePeer m = .ok (id, b) := by
+  induction visits with
+  | nil => intro sel _ _ id hid; exact Or.inl hid
+  | cons v rest ih =>
+    intro sel visited hv id hid
+    obtain ⟨w, picks⟩ := v
+    obtain ⟨_, h2, _, _, h5, _, h7⟩ := hv
+    simp only [sampleFrom, List.foldl_cons] at hid
+    rcases ih (visit sel picks) (w :: visited) h7 id hid with h' | h'
+    · unfold visit at h'
+      rcases (collapse_ids _ _ _).mp h' with h'' | h''
+      · exact Or.inl h''
+      · right
+        obtain ⟨x, hx, hxid⟩ := List.mem_map.mp h''
+        unfold decodeAll at hx
+        obtain ⟨m, hm, hdm⟩ := List.mem_filterMap.mp hx
+        obtain ⟨xi, xb⟩ := x
+        simp only at hxid; subst hxid
+        refine ⟨w, m, xb, h2, h5 m hm, ?_⟩
+        split at hdm
+        · rename_i r hr; cases hdm; exact hr
+        · cases hdm
+    · exact Or.inr h'
+
+/-- the answer is not empty when some queried window holds (only decodable) members and n ≥ 1 -/
+theorem sampleFrom_nonempty (c : Cfg) (s : State) (h : Bytes) (n : Nat) (hn : 1 ≤ n) (w0 : Nat)
+    (hq : queried c s.now w0 = true) (hne : members s h w0 ≠ [])
+    (hdec : ∀ m, m ∈ members s h w0 → ∃ r, deserializePeer m = .ok r)
+    (visits : List (Nat × List (List Char))) :
+    ∀ (sel : List (Ident × Bool)) (visited : List Nat), ValidFrom c s h n sel visited visits →
+      (sel ≠ [] ∨ w0 ∉ visited) → sampleFrom sel visits ≠ [] := by
+  induction visits with
+  | nil =>
+    intro sel visited hv hor
+    simp only [sampleFrom, List.foldl_nil]
+    rcases hor with h1 | h1
+    · exact h1
+    · rcases hv with h2 | h2
+      · intro e; rw [e] at h2; simp at h2; omega
+      · rcases h2 w0 hq with h3 | h3
+        · exact absurd h3 h1
+        · exact absurd h3 hne
+  | cons v rest ih =>
+    intro sel visited hv hor
+    obtain ⟨w, picks⟩ := v
+    obtain ⟨h1, _, h3, _, h5, h6, h7⟩ := hv
+    simp only [sampleFrom, List.foldl_cons]
+    apply ih (visit sel picks) (w :: visited) h7
+    by_cases hs : sel = []
+    · subst hs
+      by_cases hw : w = w0
+      · subst hw
+        left
+        -- at least one member is drawn and it decodes
+        have hpos : 0 < picks.length := by
+          rw [h6]
+          have : 0 < (members s h w).length := List.length_pos_iff.mpr hne
+          simp only [List.length_nil, Nat.sub_zero]
+          omega
+        obtain ⟨m, hm⟩ := List.exists_mem_of_length_pos hpos
+        obtain ⟨r, hr⟩ := hdec m (h5 m hm)
+        have : r ∈ decodeAll picks := by
+          unfold decodeAll
+          exact List.mem_filterMap.mpr ⟨m, hm, by rw [hr]⟩
+        intro e
+        have hid : r.1 ∈ (visit [] picks).map (·.1) := by
+          unfold visit
+          exact (collapse_ids _ _ _).mpr (Or.inr (List.mem_map.mpr ⟨r, this, rfl⟩))
+        rw [e] at hid; simp at hid
+      · right
+        rcases hor with h' | h'
+        · exact absurd rfl h'
+        · simp only [List.mem_cons, not_or]; exact ⟨fun e => hw e.symm, h'⟩
+    · left
+      intro e
+      have := (visit_length sel picks).1
+      rw [e] at this
+      simp at this
+      exact hs this
+
 end KrakenModel.Proof.C28
